@@ -101,6 +101,12 @@ pub uninterp spec fn xml_partial_escape(s: Seq<char>) -> Seq<char>;   // escapes
 /// quick_xml::escape::{escape, partial_escape}
 #[verifier::external_body]
 pub fn escape(s: &str) -> (r: CowStr) ensures str_bytes(r@) == xml_escape(s@) { unimplemented!() }
+#[verifier::external_body] pub struct EscapeError { _p: u8 }
+/// quick_xml::escape::unescape: decode the entity references of a string
+#[verifier::external_body]
+pub fn unescape(s: &str) -> (r: core::result::Result<CowStr, EscapeError>)
+    ensures (match xml_unescape(str_bytes(s@)) { Some(t) => r is Ok && r->Ok_0@ == t, None => r is Err })
+{ unimplemented!() }
 #[verifier::external_body]
 pub fn partial_escape(s: &str) -> (r: CowStr) ensures r@ == xml_partial_escape(s@) { unimplemented!() }
 impl CowStr {
